@@ -16,7 +16,7 @@ from ..extract import Canon
 from .. import armor
 from .fsm import get_fsm
 from .c05 import canon_cell
-from .common import flatten, unwrap_message, leaf_table
+from .common import pointwise, flatten, unwrap_message, leaf_table
 
 MAXN = (1 << 28) - 1
 
@@ -226,6 +226,7 @@ def run(ctx, chk):
            "unarmor outcomes of std missing from the no-alloc build: %r" % (sorted(U["std"] - U["none"])[:1],), sample={"unarmor_outcomes": {c: len(U[c]) for c in cfgs}})
     # ---- (4) leaf decoder tables
     T = {}
+    PW = {}
     for c in cfgs:
         I = ctx.layouts(c)[0]
         C = Canon(I.f)
@@ -256,11 +257,20 @@ def run(ctx, chk):
                 rows = None
             if rows is not None:
                 tabs[d.replace(I.f.crate + "::", "")] = sorted(repr((tuple(x.iv if x is not None else None for x in sets_), strip(term))) for (sets_, term, s2, rv) in rows)
+                pw = pointwise([(sets_, strip(term), s2, rv) for (sets_, term, s2, rv) in rows])
+                if pw is not None:
+                    PW.setdefault(c, {})[d.replace(I.f.crate + "::", "")] = pw
         T[c] = tabs
     for name in sorted(set(T["std"]) | set(T["none"]) | set(T["alloc"])):
         a, b, n = T["std"].get(name), T["alloc"].get(name), T["none"].get(name)
-        chk.ob(a == b, "C18/leaf/std-vs-alloc/%s" % name, "decoder %s has different tables in std and alloc" % name)
-        chk.ob(a == n, "C18/leaf/std-vs-none/%s" % name, "decoder %s has different tables in std and no-alloc: %r vs %r" % (name, (a or [])[:2], (n or [])[:2]),
+        def same(x, y, cx, cy):
+            if x == y:
+                return True
+            # the same function written differently (ranges vs lookup table): compare value by value
+            px, py = PW.get(cx, {}).get(name), PW.get(cy, {}).get(name)
+            return px is not None and px == py
+        chk.ob(same(a, b, "std", "alloc"), "C18/leaf/std-vs-alloc/%s" % name, "decoder %s has different tables in std and alloc" % name)
+        chk.ob(same(a, n, "std", "none"), "C18/leaf/std-vs-none/%s" % name, "decoder %s has different tables in std and no-alloc: %r vs %r" % (name, (a or [])[:2], (n or [])[:2]),
                sample={"leaf": name, "rows": len(a or [])})
     chk.cov["leaf_tables_compared"] = len(T["std"])
     # ---- (5) the local copies of many_m_n / count against nom's semantics (scripted element parser)
